@@ -3,6 +3,7 @@ import Umya.Driver.C02
 import Umya.Spec.Sml
 import Umya.Spec.Double
 import Umya.Model.Reader
+import Umya.Model.ReaderSheet
 /-
   C03 driver.  `c03 part <namehex> <isxml> <hex>` collects the parts of one package (lexed by
   `Umya.Spec.Xml`), `c03 decode` answers with the violations found by the independent decoder and
@@ -12,6 +13,10 @@ import Umya.Model.Reader
   (`Umya.Model.Reader`: `readCell`, `sheetPositions`) is run next to the spec on every `<c>` / every
   `<sheetData>` of the file (`model-vs-spec-cells`, `model-vs-spec-positions` after ` ## `; a position
   difference on a file the spec accepts also shows as `modelpos=` in the compared part).
+  `c03 model` (after `decode`): the model of the reader above the cell level (`Umya.Model.ReaderSheet`) is run
+  on the lexed parts and answers with the modelled components of the view (`mview=`: sheet list, defined
+  names, per sheet cells / merges / links), which the harness prints from the workbook the library loaded;
+  `unmodelled` for packages below the tree abstraction (comments, CDATA, tag forms, prefixed names).
 -/
 namespace Umya.Driver.C03
 open Umya.Spec.Xml Umya.Spec.Sml Umya.Proto
@@ -19,6 +24,8 @@ open Umya.Driver.C02 (hexOf sortStrings stripBom)
 
 structure St where
   parts : List Part := []
+  raws : List (String × List Char) := []      -- the characters of every XML part (for `model`)
+  xfs : List XfV := []                        -- the style facts of the last `decode` (for `model`)
 
 def orTilde (o : Option Text) : String :=
   match o with
@@ -91,13 +98,18 @@ def quoteQualifiers : List Umya.Spec.SharedF.Piece → Text
 
 def canonName (t : Text) : Text := quoteQualifiers (Umya.Spec.SharedF.scan t)
 
+def nameStr (n : NameV) : String :=
+  s!"{hexOf n.name}:{match n.scope with | some i => toString i | none => "~"}:{hexOf (canonName n.text)}"
+
+def linkStr (l : Link) : String :=
+  s!"{str l.ref}/{if l.external then "e" else "l"}/{hexOf l.target}/{if l.external then orTilde l.location else "~"}/{orTilde l.tooltip}"
+
 def viewStr (b : BookV) : String :=
   let sheets := b.sheets.map (fun s => s!"{hexOf s.name}:{s.state}")
-  let names := sortStrings (b.names.map (fun n => s!"{hexOf n.name}:{match n.scope with | some i => toString i | none => "~"}:{hexOf (canonName n.text)}"))
+  let names := sortStrings (b.names.map nameStr)
   let per := b.sheets.map fun s =>
     let cells := s.cells.filterMap (cellStr b.xfs (s.links.map (·.ref)))
-    let links := sortStrings (s.links.map (fun l =>
-      s!"{str l.ref}/{if l.external then "e" else "l"}/{hexOf l.target}/{if l.external then orTilde l.location else "~"}/{orTilde l.tooltip}"))
+    let links := sortStrings (s.links.map linkStr)
     let rows := s.rows.filterMap (rowStr b.xfs)
     let tables := sortStrings <| s.tables.map fun t => s!"{hexOf t.name}:{hexOf t.displayName}:{str t.ref}:{"|".intercalate (t.columns.map hexOf)}"
     s!"cells={",".intercalate cells};merges={",".intercalate (s.merges.map str)};links={",".intercalate links};cols={colsStr b.xfs s.cols};rows={",".intercalate rows};tables={",".intercalate tables}"
@@ -151,6 +163,125 @@ def modelVsSpecPositions (parts : List Part) : List String × Nat × Nat × Nat 
   (per.filterMap (·.1), sheets.length, (per.map (·.2.1)).sum, (per.map (·.2.2.1)).sum, (per.map (·.2.2.2.1)).sum,
     (per.map (·.2.2.2.2)).sum)
 
+
+/-! ## `c03 model`: the model of the library's reader above the cell level (`Umya.Model.ReaderSheet`: the
+     `<sheetData>` loop with shared-formula groups, the shared-strings part, hyperlinks through the
+     relationships, merged ranges, sheet list, defined names) run on the lexed parts of the package; its view
+     is compared with the view of the workbook the LIBRARY loaded (correspondence).  Style facts come from the
+     spec's style table through the model's style index (style resolution is not modelled). -/
+section Model
+open Umya.Reader
+
+def hasSub (p : List Char) : List Char → Bool
+  | [] => p.isEmpty
+  | c :: r => p.isPrefixOf (c :: r) || hasSub p r
+
+/-- elements the readers see only as `Empty` events / only as `Start` events (known finding
+    C03-edge-start-end-tag-form): the other tag form is below the tree the model reads -/
+def emptyOnly : List String := ["sheet", "Relationship", "hyperlink", "mergeCell"]
+def startOnly : List String := ["definedName"]
+/-- structural elements whose prefixed form (`x:sheetData`) the library does not see; `xdr:row`, `xm:f`, `a:t` …
+    of other vocabularies occur inside worksheet parts and are seen by neither side -/
+def modelledNames : List String :=
+  ["workbook", "sheets", "sheet", "definedNames", "definedName", "worksheet", "sheetData", "c", "sst", "si",
+   "hyperlinks", "hyperlink", "mergeCells", "mergeCell", "Relationships", "Relationship"]
+
+/-- the part is outside what the tree model can stand for: comments / CDATA (known finding
+    C03-edge-cdata-and-comments-in-text), the tag forms above, prefixed SpreadsheetML names -/
+def outsideTree (raw : List Char) : Bool :=
+  hasSub "<!--".toList raw || hasSub "<![CDATA[".toList raw ||
+  (match lex raw with
+   | none => true
+   | some toks => toks.any fun t => match t with
+     | .open n _ e =>
+       let ln := str (localName n)
+       (!e && emptyOnly.contains ln) || (e && startOnly.contains ln) || (n.contains ':' && modelledNames.contains ln)
+     | _ => false)
+
+def partRoot (parts : List Part) (name : Text) : Option Node := (parts.find? (·.name = str name)).bind (·.xml)
+
+def outToCellV (o : CellOut) : CellV :=
+  { ref := refText o.col o.row, kind := o.cell.raw.kind, value := o.cell.raw.text, formula := o.formula, style := o.cell.style }
+
+/-- `Cells::set_fast` + `get_cell_collection_sorted`: stable sort by (row, column), the last of equals stays -/
+def keepLast : List CellOut → List CellOut
+  | a :: b :: rest => if a.row = b.row ∧ a.col = b.col then keepLast (b :: rest) else a :: keepLast (b :: rest)
+  | l => l
+
+def sortedCells (os : List CellOut) : List CellOut :=
+  keepLast (os.mergeSort fun a b => a.row < b.row || (a.row = b.row && a.col ≤ b.col))
+
+structure SheetM where
+  sheet : SheetR
+  cells : List CellV
+  merges : List Text
+  links : List Link
+
+inductive MRes where
+  | unmodelled (why : String)
+  | panic (why : String)
+  | ok (sheets : List SheetM) (names : List NameV) (stats : String)
+
+def stateStr (s : Option Text) : String :=
+  match s with
+  | some v => if v = "hidden".toList then "hidden" else if v = "veryHidden".toList then "veryHidden" else "visible"
+  | none => "visible"
+
+def mviewStr (xfs : List XfV) (sheets : List SheetM) (names : List NameV) : String :=
+  let sh := sheets.map fun s => s!"{hexOf s.sheet.name}:{stateStr s.sheet.state}"
+  let nm := sortStrings (names.map nameStr)
+  let per := sheets.map fun s =>
+    let cells := s.cells.filterMap (cellStr xfs (s.links.map (·.ref)))
+    let links := sortStrings (s.links.map linkStr)
+    s!"cells={",".intercalate cells};merges={",".intercalate (s.merges.map str)};links={",".intercalate links}"
+  s!"sheets={"|".intercalate sh};names={"|".intercalate nm} # {" # ".intercalate per}"
+
+/-- one sheet: `none` = the model panics -/
+def modelSheet (parts : List Part) (sst : List (Option Text)) (wbRels : List RelR) (s : SheetR) : Option SheetM :=
+  match (sheetPart wbRels s).bind (fun p => (partRoot parts p).map fun r => (p, r)) with
+  | none => some ⟨s, [], [], []⟩          -- no relationship / no such part: the sheet stays empty
+  | some (path, root) =>
+    let rows := ((root.kid? "sheetData").map (·.kids "row")).getD []
+    let rels := (partRoot parts (relsPartOf path)).map readRels
+    let hs := ((root.kid? "hyperlinks").map (·.kids "hyperlink")).getD []
+    let ms := ((root.kid? "mergeCells").map (·.kids "mergeCell")).getD []
+    match readSheetData sst rows, (match rels with | some none => none | some (some r) => readHyperlinks (some r) hs | none => readHyperlinks none hs),
+          readMerges ms with
+    | some os, some ls, some mg =>
+      some ⟨s, (sortedCells os).map outToCellV, mg,
+        ls.map fun l => { ref := l.ref, external := !l.location, target := l.url, tooltip := if l.tooltip.isEmpty then none else some l.tooltip }⟩
+    | _, _, _ => none
+
+/-- statistics of the shared groups of a `<sheetData>` as the MODEL sees them (informational) -/
+def groupStats (os : List CellOut) : Nat × Nat :=
+  let gs := (os.filterMap (·.cell.shared)).eraseDups
+  (gs.length, (os.filter (·.cell.shared.isSome)).length - gs.length)
+
+def runModel (parts : List Part) (raws : List (String × List Char)) : MRes :=
+  let relevant := raws.filter fun (n, _) =>
+    n = "xl/workbook.xml" || n = "xl/sharedStrings.xml" || n.endsWith ".rels" ||
+    (match partRoot parts n.toList with | some r => localName r.name = "worksheet".toList | none => false)
+  if relevant.any (fun (_, raw) => outsideTree raw) then .unmodelled "tag-forms-or-comments"
+  else
+    match partRoot parts "xl/workbook.xml".toList, (partRoot parts "xl/_rels/workbook.xml.rels".toList) with
+    | some wb, some wr =>
+      let sst := match partRoot parts "xl/sharedStrings.xml".toList with
+        | some r => if localName r.name = "sst".toList then readSst r else []
+        | none => []
+      match readRels wr, readSheetList (((wb.kid? "sheets").map (·.kids "sheet")).getD []),
+            readDefinedNames (((wb.kid? "definedNames").map (·.kids "definedName")).getD []) with
+      | some wrs, some sl, some dn =>
+        if dn.any (fun d => match d.localSheetId with | some i => decide (i ≥ sl.length) | none => false) then .panic "localSheetId"
+        else
+          match sl.mapM (modelSheet parts sst wrs) with
+          | none => .panic "sheet"
+          | some sheets =>
+            .ok sheets (dn.map fun d => NameV.mk d.name d.localSheetId d.text) ""
+      | _, _, _ => .panic "workbook"
+    | _, _ => .unmodelled "no-workbook-part"
+
+end Model
+
 def handle (st : St) (args : List String) : St × String :=
   match args with
   | "reset" :: _ => ({}, "ok")
@@ -161,10 +292,12 @@ def handle (st : St) (args : List String) : St × String :=
       if isXml = "1" then
         match String.fromUTF8? bytes with
         | some s =>
-          let tree := parse (stripBom s.toList)
-          ({ parts := st.parts ++ [{ name := nm, xml := tree, isXml := true }] }, if tree.isSome then "ok" else "malformed")
-        | none => ({ parts := st.parts ++ [{ name := nm, xml := none, isXml := true }] }, "not-utf8")
-      else ({ parts := st.parts ++ [{ name := nm, xml := none, isXml := false }] }, "ok")
+          let raw := stripBom s.toList
+          let tree := parse raw
+          ({ st with parts := st.parts ++ [{ name := nm, xml := tree, isXml := true }], raws := st.raws ++ [(nm, raw)] },
+            if tree.isSome then "ok" else "malformed")
+        | none => ({ st with parts := st.parts ++ [{ name := nm, xml := none, isXml := true }] }, "not-utf8")
+      else ({ st with parts := st.parts ++ [{ name := nm, xml := none, isXml := false }] }, "ok")
     | _, _ => (st, "bad-op")
   | ["decode"] =>
     let (bv, errs) := decode st.parts
@@ -180,7 +313,13 @@ def handle (st : St) (args : List String) : St × String :=
     -- the classifier reports it (the implementation is compared with the spec through the view, so the
     -- three agree pairwise on every file that passes)
     let mp := if errs.isEmpty ∧ !pdiff.isEmpty then s!";modelpos={" / ".intercalate (pdiff.take 3)}" else ""
-    (st, s!"errs={errs.length};{" | ".intercalate (errs.take 5)}{mp};view={v} ## model-vs-spec-cells={bad}/{n} model-vs-spec-positions={pdiff.length}/{nws} rows={nrows} cells={ncells} rows-no-r={rowsNoR} cells-no-r={cellsNoR} {" ".intercalate notes}")
+    ({ st with xfs := match bv with | some b => b.xfs | none => [] },
+     s!"errs={errs.length};{" | ".intercalate (errs.take 5)}{mp};view={v} ## model-vs-spec-cells={bad}/{n} model-vs-spec-positions={pdiff.length}/{nws} rows={nrows} cells={ncells} rows-no-r={rowsNoR} cells-no-r={cellsNoR} {" ".intercalate notes}")
+  | ["model"] =>
+    match runModel st.parts st.raws with
+    | .unmodelled _ => (st, "unmodelled")
+    | .panic why => (st, s!"mview=read-panicked ## {why}")
+    | .ok sheets names stats => (st, s!"mview={mviewStr st.xfs sheets names} ## {stats}")
   | _ => (st, "bad-op")
 
 end Umya.Driver.C03
